@@ -1265,11 +1265,19 @@ def build_operator_operand_fixup(capture_error_state):
         try:
             if op == 'USub':
                 return PYTHON_AST_OPERATORS[op](right_op)
+            elif (op == 'Pow' and is_number(left_op) and left_op < 0 and
+                  is_number(right_op) and right_op % 1):
+                # negative number to a fractional power is not a real number
+                capture_error_state(True, f'Values: {left_op} {op} {right_op}')
+                return NUM_ERROR
             else:
                 return PYTHON_AST_OPERATORS[op](left_op, right_op)
         except ZeroDivisionError:
             capture_error_state(True, f'Values: {left_op} {op} {right_op}')
             return DIV0
+        except OverflowError:
+            capture_error_state(True, f'Values: {left_op} {op} {right_op}')
+            return NUM_ERROR
         except TypeError:
             capture_error_state(True, f'Values: {left_op} {op} {right_op}')
             return VALUE_ERROR
